@@ -192,6 +192,10 @@ def run(rep, facts, tier):
     rule_19_4(rep, fx)
     rule_19_5(rep, fx)
 
+    # ------------------------------------------------------------ R19.6 crossed roles (shared lint, rdv/swaplint.py)
+    from rdv import swaplint
+    swaplint.run_rule(rep, facts['security'], 'R19.6', ['security::authentication', 'security::certificate'])
+
 
 def _reads_local(rv, l):
     r = rv['r']
